@@ -144,6 +144,8 @@ RAISES: Dict[str, tuple] = {
 }
 
 # Names that never raise for the argument types this package passes (documented total).
+SOCKET_METHODS = {"shutdown", "sendall", "send", "recv", "recv_into", "connect", "getpeername", "getsockname", "setsockopt"}
+
 PURE_STR_METHODS = {"startswith", "endswith", "lower", "upper", "strip", "lstrip", "rstrip", "isdigit", "isalpha", "replace", "removeprefix", "removesuffix", "title", "capitalize", "zfill", "count", "find", "rfind"}
 
 TOTAL_PREFIXES = (
@@ -401,6 +403,8 @@ class ExtModel:
             if generic is not None:
                 return generic(interp, st, recv, args, kwargs, node)
         raises = RAISES.get(name)
+        if raises is None and recv is not None and short in SOCKET_METHODS and "sock" in repr(recv.key()):
+            raises = (OSError,)  # operations on a socket object fail with OSError (closed / reset / timed out)
         if raises is None:
             if any(name.startswith(p) for p in TOTAL_PREFIXES) or name.startswith("?."):
                 raises = ()
@@ -653,6 +657,8 @@ class ExtModel:
         if isinstance(recv, DictV):
             if isinstance(k, EnumMemV) and len(k.names) == 1:
                 k = Const(interp.enum_value(k.enum, k.version, k.names[0]))
+            if isinstance(k, TupleV) and all(isinstance(x, Const) for x in k.items):
+                k = Const(tuple(x.value for x in k.items))
             if isinstance(k, Const) and k.value in recv.entries:
                 return [("val", st, recv.entries[k.value])]
             if recv.closed and isinstance(k, Const):
